@@ -9,8 +9,8 @@ P = "c07_pad"
 def jobs(tier):
     q = tier == "quick"
     return [
-        Job(R, "flt-asan", "random", workers=W, cases=20000 if q else 60000, maxtime=60 if q else 400),
-        Job(P, "flt-asan", "random", workers=W, cases=6000 if q else 40000, maxtime=60 if q else 400),
+        Job(R, "flt-asan", "random", workers=W, cases=20000 if q else 60000, maxtime=150 if q else 600),
+        Job(P, "flt-asan", "random", workers=W, cases=6000 if q else 40000, maxtime=150 if q else 600),
     ] + ([] if q else [Job(R, "flt-fuzz", "fuzz", fuzz_jobs=8, fuzz_time=180),
                        Job(P, "flt-fuzz", "fuzz", fuzz_jobs=8, fuzz_time=90)])
 
@@ -44,7 +44,7 @@ PROP = dict(
         "Caller preconditions respected: packets stay allocated while the repacketizer borrows them; data pointers are never NULL; "
         "output buffers are exact-size heap blocks of maxlen bytes.",
         "Known findings excluded by construction and replayed from corpus/C07/known/: F3 (range cuts a multi-frame packet carrying "
-        "extensions), F7 (carried extension payload makes the output exceed 1277 bytes per frame), F12 (padding that is not a "
+        "extensions), F7 (carried extension payload makes the output exceed 1277 bytes per frame), F20 (padding that is not a "
         "well-formed extension sequence makes out/out_range/pad fail with OPUS_INTERNAL_ERROR).",
         "opus.h's second size promise (frames + submitted bytes) is not part of the property text; it is false for merged CBR packets "
         "with frames >= 252 bytes and is only counted (label out:exceeds-frames-plus-submitted-bytes).",
